@@ -4,6 +4,7 @@
 import GeonumModel.Lemmas.GeonumAdd
 import GeonumModel.Spec.RealWitness
 import GeonumModel.Lemmas.ExactAdd
+import GeonumModel.Lemmas.GradeAngle
 
 set_option linter.unusedSectionVars false
 set_option linter.unusedVariables false
@@ -65,6 +66,112 @@ theorem opposite_blades {a b : Geonum F} (ha : a.angle.Inv) (hb : b.angle.Inv) (
     have : (b.angle.add (Angle.new one one)).blade ≠ a.angle.blade := by rw [nb.1]; omega
     simp [this] at h
 
+/-- the library's angle equality is symmetric (needs symmetric rounding: `rnd (−x) = −rnd x`) -/
+theorem beq_symm {x y : Angle F} (hx : Fin x.rem) (hy : Fin y.rem)
+    (hr : InRange (F := F) (val x.rem - val y.rem)) : x.beq y = y.beq x := by
+  have hr' : InRange (F := F) (val y.rem - val x.rem) :=
+    inRange_mono (by rw [← abs_neg]; ring_nf; exact le_refl _) hr
+  obtain ⟨hf1, hv1⟩ := fsub_spec hx hy hr
+  obtain ⟨hf2, hv2⟩ := fsub_spec hy hx hr'
+  obtain ⟨hfa1, hva1⟩ := fabs_spec hf1
+  obtain ⟨hfa2, hva2⟩ := fabs_spec hf2
+  have hval : val (fabs (fsub x.rem y.rem)) = val (fabs (fsub y.rem x.rem)) := by
+    rw [hva1, hva2, hv1, hv2, show val y.rem - val x.rem = -(val x.rem - val y.rem) by ring, rnd_neg, abs_neg]
+  have ht : flt (fabs (fsub x.rem y.rem)) (e15 : F) = flt (fabs (fsub y.rem x.rem)) (e15 : F) := by
+    rw [Bool.eq_iff_iff, flt_spec hfa1 fin_e15, flt_spec hfa2 fin_e15, hval]
+  have he : feq x.rem y.rem = feq y.rem x.rem := by
+    rw [Bool.eq_iff_iff, feq_spec hx hy, feq_spec hy hx]; exact eq_comm
+  unfold Angle.beq
+  by_cases hb : x.blade = y.blade
+  · simp [hb, ht, he]
+  · have hb' : y.blade ≠ x.blade := fun h => hb h.symm
+    simp [hb, hb']
+
+/-- (S) **the branch taken by `a + b` and by `b + a` is the same**: both special-case tests are symmetric -/
+theorem branch_symmetric {a b : Geonum F} (ha : a.angle.Inv) (hb : b.angle.Inv) :
+    sameAngle a b = sameAngle b a ∧ oppositeAngle a b = oppositeAngle b a := by
+  have hq := val_qp_lt (F := F); have he := val_e10_pos (F := F)
+  refine ⟨beq_symm ha.1 hb.1 (inRange_of_abs_le_1000 (by
+    rw [abs_le]; constructor <;> linarith [ha.2.1, ha.2.2, hb.2.1, hb.2.2])), ?_⟩
+  unfold oppositeAngle; rw [Bool.or_comm]
+
+/-- (S) hence in the same-angle and opposite regimes `a + b` and `b + a` carry the same blade count -/
+theorem special_branches_blade_symmetric {a b : Geonum F} (ha : a.angle.Inv) (hb : b.angle.Inv)
+    (hma : Fin a.mag) (hmb : Fin b.mag) (hr : InRange (F := F) (val a.mag - val b.mag))
+    (hspecial : sameAngle a b = true ∨ oppositeAngle a b = true) :
+    (a.add b).angle.blade = (b.add a).angle.blade := by
+  obtain ⟨hs, ho⟩ := branch_symmetric ha hb
+  by_cases h1 : sameAngle a b = true
+  · rw [add_same a b h1, add_same b a (by rw [← hs]; exact h1)]
+    exact same_angle_blades a b h1
+  · have h1' : sameAngle a b = false := by simpa using h1
+    have h2 : oppositeAngle a b = true := by rcases hspecial with h | h; exact absurd h h1; exact h
+    have h1b : sameAngle b a = false := by rw [← hs]; exact h1'
+    have h2b : oppositeAngle b a = true := by rw [← ho]; exact h2
+    -- magnitude difference and its mirror image
+    have hr' : InRange (F := F) (val b.mag - val a.mag) :=
+      inRange_mono (by rw [← abs_neg]; ring_nf; exact le_refl _) hr
+    obtain ⟨hf1, hv1⟩ := fsub_spec hma hmb hr
+    obtain ⟨hf2, hv2⟩ := fsub_spec hmb hma hr'
+    have hneg : val (fsub b.mag a.mag) = -val (fsub a.mag b.mag) := by
+      rw [hv1, hv2, show val b.mag - val a.mag = -(val a.mag - val b.mag) by ring, rnd_neg]
+    obtain ⟨hfa1, hva1⟩ := fabs_spec hf1
+    obtain ⟨hfa2, hva2⟩ := fabs_spec hf2
+    have ht : flt (fabs (fsub a.mag b.mag)) (e10 : F) = flt (fabs (fsub b.mag a.mag)) (e10 : F) := by
+      rw [Bool.eq_iff_iff, flt_spec hfa1 fin_e10, flt_spec hfa2 fin_e10, hva1, hva2, hneg, abs_neg]
+    by_cases h3 : flt (fabs (fsub a.mag b.mag)) (e10 : F) = true
+    · rw [add_opposite_cancel a b h1' h2 h3, add_opposite_cancel b a h1b h2b (by rw [← ht]; exact h3), Nat.add_comm]
+    · have h3' : flt (fabs (fsub a.mag b.mag)) (e10 : F) = false := by simpa using h3
+      have h3b : flt (fabs (fsub b.mag a.mag)) (e10 : F) = false := by rw [← ht]; exact h3'
+      -- not cancelling: the difference is non-zero, so exactly one order sees it positive
+      have hnz : val (fsub a.mag b.mag) ≠ 0 := by
+        intro hz
+        have : flt (fabs (fsub a.mag b.mag)) (e10 : F) = true := by
+          rw [flt_spec hfa1 fin_e10, hva1, hz, abs_zero]; exact val_e10_pos
+        rw [this] at h3'; cases h3'
+      by_cases h4 : flt (zero : F) (fsub a.mag b.mag) = true
+      · have hpos : 0 < val (fsub a.mag b.mag) := by
+          have := (flt_spec fin_zero hf1).mp h4; rwa [val_zero] at this
+        have h4b : flt (zero : F) (fsub b.mag a.mag) = false := by
+          rw [Bool.eq_false_iff]; intro hc
+          have := (flt_spec fin_zero hf2).mp hc; rw [val_zero, hneg] at this; linarith
+        rw [add_opposite_first a b h1' h2 h3' h4, add_opposite_second b a h1b h2b h3b h4b]
+      · have h4' : flt (zero : F) (fsub a.mag b.mag) = false := by simpa using h4
+        have hnpos : ¬ 0 < val (fsub a.mag b.mag) := by
+          intro hc; exact h4 ((flt_spec fin_zero hf1).mpr (by rwa [val_zero]))
+        have hlt : val (fsub a.mag b.mag) < 0 := lt_of_le_of_ne (not_lt.mp hnpos) hnz
+        have h4b : flt (zero : F) (fsub b.mag a.mag) = true := by
+          rw [flt_spec fin_zero hf2, val_zero, hneg]; linarith
+        rw [add_opposite_second a b h1' h2 h3' h4', add_opposite_first b a h1b h2b h3b h4b]
+
+/-- (S) in the general branch the two orders produce the *identical* angle structure (bit-identical on binary64): the projections
+    sums are the same float sums by commutativity of `+`, and the blade sum commutes -/
+theorem general_branch_angle_symmetric {a b : Geonum F} (ha : a.angle.Inv) (hb : b.angle.Inv)
+    (hma : Fin a.mag) (hmb : Fin b.mag)
+    (h1 : sameAngle a b = false) (h2 : oppositeAngle a b = false) :
+    (a.add b).angle = (b.add a).angle := by
+  obtain ⟨hs, ho⟩ := branch_symmetric ha hb
+  rw [add_general a b h1 h2, add_general b a (by rw [← hs]; exact h1) (by rw [← ho]; exact h2)]
+  have hga := gradeAngle_fin ha; have hgb := gradeAngle_fin hb
+  obtain ⟨hfsa, _, _⟩ := sin_spec hga
+  obtain ⟨hfsb, _, _⟩ := sin_spec hgb
+  obtain ⟨hfca, _, _⟩ := cos_spec hga
+  obtain ⟨hfcb, _, _⟩ := cos_spec hgb
+  have prodfin : ∀ {m c : F}, Fin m → Fin c → |val c| ≤ 1 → Fin (fmul m c) := by
+    intro m c hm hc hc1
+    exact (fmul_spec hm hc (inRange_mono (by
+      rw [abs_mul]
+      calc |val m| * |val c| ≤ |val m| * 1 := mul_le_mul_of_nonneg_left hc1 (abs_nonneg _)
+        _ = |val m| := mul_one _) (inRange_val hm))).1
+  have ho1 : oppSum a b = oppSum b a := by
+    unfold oppSum
+    exact fadd_comm (prodfin hma hfsa (sin_spec hga).2.1) (prodfin hmb hfsb (sin_spec hgb).2.1)
+  have ha1 : adjSum a b = adjSum b a := by
+    unfold adjSum
+    exact fadd_comm (prodfin hma hfca (cos_spec hga).2.1) (prodfin hmb hfcb (cos_spec hgb).2.1)
+  show Angle.newWithBlade _ _ _ = Angle.newWithBlade _ _ _
+  rw [ho1, ha1, Nat.add_comm a.angle.blade b.angle.blade]
+
 end S
 
 /-! ### E-tier: the general regime in exact arithmetic -/
@@ -83,8 +190,8 @@ theorem general_policy_real {a b : Geonum ℝ} (ha : a.angle.Inv) (hb : b.angle.
 
 end E
 
-/-! PARTIAL: equality of blades for a+b and b+a in the general branch of the FLOAT code (commutativity of the two float sums and
-    evenness of cos) is not proved; explored by `oracle.C14.policy`. -/
+/-! (the symmetry clause — blade history identical for a+b and b+a — is now proved in every branch: `special_branches_blade_symmetric`,
+    `general_branch_angle_symmetric`) -/
 
 example : sameAngle (⟨(1:ℝ), ⟨(0.5:ℝ), 3⟩⟩ : Geonum ℝ) ⟨2, ⟨0.5, 3⟩⟩ = true := by
   unfold sameAngle Angle.beq
